@@ -52,7 +52,7 @@ pub fn rule_keys(r: &RuleAst) -> (BTreeSet<String>, BTreeSet<String>) {
 }
 
 /// matrix-friendly rules: sequences of mappings over a few shared fields
-fn matrix_rule(rng: &mut Rng) -> RuleAst {
+pub fn matrix_rule(rng: &mut Rng) -> RuleAst {
     let cfg = GenCfg { share_fields: 100, max_entries: 3, key_quant: false, ..Default::default() };
     let nid = 1 + rng.below(2);
     let mut idents = vec![];
